@@ -296,7 +296,7 @@ func judge(out *CheckOutcome, tier string, verbose bool) *Verdict {
 			v.NDischarged++
 		case "refuted", "undecided", "contradiction":
 			if k := isKnown(r.Name); k != nil {
-				line := fmt.Sprintf("KNOWN-FINDING: property=%s %s", prop, k.Text)
+				line := fmt.Sprintf("KNOWN-FINDING: %s", k.Text)
 				dup := false
 				for _, l := range v.KnownHits {
 					if l == line {
